@@ -378,6 +378,7 @@ type c38Machine struct {
 	st      *vs.S
 	leaves  []*c38Node
 	rewound map[*c38Node]bool // blocks whose data a SetHead deleted at least once
+	S       map[string]struct{} // logs a subscriber currently holds as announced
 
 	dupAnnounce int // logs announced again while still announced (observation, not asserted)
 
@@ -676,12 +677,7 @@ func (m *c38Machine) checkEvents(what string, old, cur []*c38Node, o c38Observed
 	// Log events, applied in emission order to the set of logs a subscriber holds
 	// (initially the logs of the old canonical chain), must leave exactly the logs of
 	// the new canonical chain; a removal must name a log that is currently announced.
-	S := map[string]struct{}{}
-	for _, n := range old {
-		for _, l := range n.logs {
-			S[l.key(false)] = struct{}{}
-		}
-	}
+	S := m.S // the subscriber's log set carried over from the previous observation
 	strictDup := 0
 	for _, e := range o.seq {
 		for _, l := range e.removed {
@@ -712,8 +708,11 @@ func (m *c38Machine) checkEvents(what string, old, cur []*c38Node, o c38Observed
 	}
 	want := map[string]struct{}{}
 	tolerated := map[string]struct{}{}
+	retractable := map[string]bool{} // the block's receipts exist, so geth can retract the log later
 	for _, n := range cur {
+		hasReceipts := len(n.logs) > 0 && len(rawdb.ReadRawReceipts(m.db, n.hash(), n.num())) > 0
 		for _, l := range n.logs {
+			retractable[l.key(false)] = hasReceipts
 			if m.actKind == "insert" && m.preWithState[n] && vs.Known("TestVerifC38Machine", c38ClassKnownNoLogs) {
 				// known finding: blocks already stored with state that InsertChain makes
 				// canonical again through writeKnownBlock do not get their logs announced
@@ -731,6 +730,9 @@ func (m *c38Machine) checkEvents(what string, old, cur []*c38Node, o c38Observed
 		if _, ok := S[k]; !ok {
 			if _, tol := tolerated[k]; tol {
 				m.st.Excluded()
+				if retractable[k] {
+					S[k] = struct{}{} // never announced (known finding) but will be retracted on a reorg
+				}
 				continue
 			}
 			diff = append(diff, "  never announced: "+k)
@@ -750,6 +752,20 @@ func (m *c38Machine) checkEvents(what string, old, cur []*c38Node, o c38Observed
 		m.dupAnnounce += strictDup
 	}
 	return dropped, added
+}
+
+// resetSubscriber models a subscriber that (re)starts from the logs of the current
+// canonical chain, as after a restart or after SetHead (which emits no log events).
+func (m *c38Machine) resetSubscriber() {
+	m.S = map[string]struct{}{}
+	for _, n := range m.canon {
+		if len(n.logs) > 0 && m.rewound[n] && len(rawdb.ReadRawReceipts(m.db, n.hash(), n.num())) == 0 && m.ghostTolerated(n) {
+			continue // known finding: canonical block without receipts, nothing it could announce or retract
+		}
+		for _, l := range n.logs {
+			m.S[l.key(false)] = struct{}{}
+		}
+	}
 }
 
 func (m *c38Machine) names(ns []*c38Node) string {
@@ -844,6 +860,7 @@ func c38Run(rt *rapid.T, st *vs.S, maxTrunk, maxActions int) {
 		m.bc.Stop()
 	}()
 	m.verify("initial")
+	m.resetSubscriber()
 
 	nActions := rapid.IntRange(4, maxActions).Draw(rt, "nActions")
 	for a := 0; a < nActions; a++ {
@@ -1033,6 +1050,9 @@ func c38Run(rt *rapid.T, st *vs.S, maxTrunk, maxActions int) {
 		if kind != "restart" {
 			dropped, added := m.checkEvents(what, old, m.canon, obs, reorgAction)
 			m.noteReorg(c, dropped, added)
+		}
+		if !reorgAction {
+			m.resetSubscriber()
 		}
 	}
 	desc := fmt.Sprintf("%s|%s|%d|%s", env.variant, scheme, m.limit, strings.Join(m.trace, ";"))
